@@ -41,7 +41,7 @@ SPEC = {
     "C08": ["samply-api/src/hex.rs", "samply-api/src/lib.rs::query_api,to_debug_id", "samply-symbols/src/shared.rs::from_str",
             "samply-symbols/src/breakpad/index.rs::parse_symindex_file", "samply-symbols/src/breakpad/symbol_map.rs::make_symbol_map,lookup_sync",
             "samply-symbols/src/mapped_path.rs::hg_path,git_path,s3_path,cargo_path,parse_special_path"],
-    "C09": ["samply-api/src/source/mod.rs", "samply-symbols/src/lib.rs::load_source_file"],
+    "C09": ["samply-api/src/source/mod.rs", "samply-symbols/src/lib.rs::load_source_file", "samply-symbols/src/symbol_map.rs::lookup"],
     "C10": ["samply-symbols/src/breakpad/index.rs", "samply-symbols/src/breakpad/symbol_map.rs"],
     "C11": ["fxprof-processed-profile/src/lib_mappings.rs", "fxprof-processed-profile/src/profile.rs::resolve_frame_address,add_lib_mapping,remove_lib_mapping,add_kernel_lib_mapping,remove_kernel_lib_mapping,clear_process_lib_mappings"],
     "C12": ["samply/src/shared/context_switch.rs"],
